@@ -17,6 +17,12 @@ HOSTS = {
     "mrow": (lambda v: f'<math><mrow{v}><mn arg="a">11.3</mn><mo>+</mo><mn arg="b">12.7</mn></mrow></math>', {"a": "11.3", "b": "12.7"}),
     "msup": (lambda v: f'<math><msup{v}><mn arg="a">13.9</mn><mn arg="b">14.6</mn></msup></math>', {"a": "13.9", "b": "14.6"}),
     "mi":   (lambda v: f'<math><mrow><mi{v}>x</mi><mo>=</mo><mn>15.2</mn></mrow></math>', {}),
+    # hosts that canonicalization is tempted to dissolve: an mrow whose other children render as nothing (so only the argument is left),
+    # one-child wrappers and a one-child msqrt - the element that carries the intent and the element that carries arg= must stay two elements
+    "sparse-empty": (lambda v: f'<math><mrow><mi>y</mi><mo>=</mo><mrow{v}><mn arg="a">11.3</mn><mrow/></mrow></mrow></math>', {"a": "11.3"}),
+    "sparse-phantom": (lambda v: f'<math><mrow{v}><mphantom><mi>h</mi></mphantom><mn arg="a">11.3</mn><malignmark/><mtext> </mtext></mrow></math>', {"a": "11.3"}),
+    "mstyle": (lambda v: f'<math><mrow><mi>y</mi><mo>=</mo><mstyle{v}><mn arg="a">11.3</mn></mstyle></mrow></math>', {"a": "11.3"}),
+    "msqrt": (lambda v: f'<math><msqrt{v}><mn arg="a">11.3</mn></msqrt></math>', {"a": "11.3"}),
 }
 # a host with four arguments, used for the chained applications only
 HOST4 = (lambda v: f'<math><mrow{v}><mn arg="a">11.3</mn><mo>+</mo><mn arg="b">12.7</mn><mo>+</mo><mn arg="c">16.8</mn><mo>+</mo><mn arg="d">17.4</mn></mrow></math>',
